@@ -73,6 +73,17 @@ def plan(ctx):
         trig = (r"CREATE,ISDIR .*/ck/\d+$", rng.randint(2, 5)) if i % 3 == 0 else (r"CREATE .*/ck/\d+/", rng.randint(1, 8) + 12 * rng.randint(0, 2))
         out.append({"case": c, "mode": "inotify", "param": trig, "f": 1, "m": rng.choice([1, 2, 3]), "async": i % 3 == 2, "rounds": 1, "seed": sub,
                     "directed": "write-lands-in-final-step-directory"})
+    # directed: synchronous runs that END ON THEIR LIMIT at an iteration that is NOT a multiple of the frequency (the final save is
+    # the only one at such a step); the child is left to finish, or is killed right after that last save() has returned
+    for i in range(4 if quick else 24):
+        sub = ctx.rng.randrange(10 ** 9)
+        rng = random.Random(sub)
+        c = gen_case(rng, ["vi", "rvi", "pvi", "savi", "pi"][i % 5])
+        f = rng.choice([2, 3, 4])
+        total = f * rng.choice([1, 2, 3]) + rng.randint(1, f - 1)
+        n_saves = total // f + 1
+        out.append({"case": c, "mode": "marker", "param": (r"^SAVE-END", n_saves if i % 2 == 0 else n_saves + 5), "f": f, "m": rng.choice([2, 3]), "async": False, "rounds": 1, "seed": sub,
+                    "total": total, "directed": "final-save-at-a-step-that-is-not-a-multiple-of-the-frequency"})
     return out
 
 
@@ -94,6 +105,7 @@ def one_experiment(ctx, p, idx):
         info = crashdrv.run_and_kill(ctx, j, mode, param)
         # what does a fresh process restore?
         rr = core.run_worker(ctx, [{"kind": "ckpt_restore", "solver": c["solver"], "dir": d, "route": "load", "problem": c["spec"], "config": dict(cfg, checkpoint_dir=d + "_unused", checkpoint_frequency=0)}])[0]
+        info["saves_returned"] = [int(ln.split()[1]) for ln in info["lines"] if ln.startswith("SAVE-END ")]
         rounds.append({"info": {k: v for k, v in info.items() if k != "lines"}, "markers": info["lines"][-6:], "restored": rr})
         restore_from = d
         if info.get("finished_normally"):
@@ -141,6 +153,11 @@ def oracle(p, e):
                         f"(kill mode {info['mode']} {info['param']}, async={p['async']})")
         if seen is not None and label < seen:
             return f"round {ri + 1}: restored iteration {label} is older than step {seen} whose commit was observed before the kill"
+        # synchronous mode: a save() call that has RETURNED has completed
+        ret = max(info.get("saves_returned") or [0])
+        if not p["async"] and label < ret:
+            return (f"round {ri + 1}: synchronous save({ret}) had returned before the process ended, but restore gives iteration {label} "
+                    f"(nothing was written for step {ret})")
     fin = e["final"]
     if "error" in fin or fin.get("raised"):
         if fin.get("raised") == "ValueError" and all(r["restored"].get("raised") for r in e["rounds"]):
